@@ -28,6 +28,9 @@ pub enum Step {
     Delete { c: usize, id: String, ext: String },
     /// `(is_dir, id, ext)`; one message (`send_multiple`) when `batched`
     Notify { c: usize, entries: Vec<(bool, String, String)>, batched: bool },
+    /// send the notification now but judge it at the next `Pass` (in enhanced
+    /// mode too: the reloader works on it while the harness goes on)
+    NotifyAsync { c: usize, entries: Vec<(bool, String, String)> },
     Pass { c: usize },
 }
 
@@ -45,6 +48,14 @@ impl Step {
             Step::Notify { c, entries, batched } => format!(
                 "c{c}: notify{} {}",
                 if *batched { "(batched)" } else { "" },
+                entries
+                    .iter()
+                    .map(|(d, i, x)| if *d { format!("dir:{i}") } else { format!("{i}.{x}") })
+                    .collect::<Vec<_>>()
+                    .join(",")
+            ),
+            Step::NotifyAsync { c, entries } => format!(
+                "c{c}: notify(not awaited) {}",
                 entries
                     .iter()
                     .map(|(d, i, x)| if *d { format!("dir:{i}") } else { format!("{i}.{x}") })
@@ -137,6 +148,7 @@ pub struct World {
     pub tag: Value,
     /// set while source / loader faults are installed (C09)
     pub faults_active: bool,
+    async_t0: Option<u64>,
     double_drops_at_start: u64,
     /// (cache, key, reload id, reloaded_global) of entries first seen since the last drain
     fresh_entries: Vec<(usize, Key, u64, bool)>,
@@ -198,6 +210,7 @@ impl World {
             aborted: None,
             tag: Value::Null,
             faults_active: false,
+            async_t0: None,
             double_drops_at_start: ledger::double_drops(),
             fresh_entries: vec![],
         };
@@ -443,9 +456,27 @@ impl World {
                     }
                 }
             }
+            Step::NotifyAsync { c, entries } => {
+                if self.real[*c].is_hot() {
+                    if self.async_t0.is_none() {
+                        let _ = self.mems[*c].take_log();
+                        self.async_t0 = Some(crate::mem::tick());
+                    }
+                    for (d, i, x) in entries {
+                        let e = if *d {
+                            OwnedDirEntry::Directory(i.as_str().into())
+                        } else {
+                            OwnedDirEntry::File(i.as_str().into(), x.as_str().into())
+                        };
+                        self.mems[*c].notify(e.clone());
+                        self.pending[*c].push(e);
+                    }
+                }
+            }
             Step::Pass { c } => {
-                if !self.static_mode {
-                    stats = self.pass(*c, rep, j, None);
+                if !self.static_mode || !self.pending[*c].is_empty() {
+                    let pre = self.async_t0.take();
+                    stats = self.pass(*c, rep, j, pre);
                 }
             }
         }
